@@ -39,6 +39,11 @@ pub enum TOp {
     SealKey,
     UnsealKeyOwn,
     UnsealKeyBad { byte: usize },
+    /// the right blob / token with the *wrong* key (another principal), then the caller carries on
+    UnsealKeyWrongRecipient,
+    UnwrapPieWrongKey,
+    DecryptWrongKey,
+    VerifyWrongKey,
     Id { kind: Kind },
     Expose { kind: Kind },
     /// replace this thread's handle of the key by a clone of it (the previous handle is dropped here)
@@ -55,7 +60,17 @@ impl TOp {
     fn is_failing(&self) -> bool {
         matches!(
             self,
-            TOp::DecryptBad { .. } | TOp::VerifyBad { .. } | TOp::UnwrapPieBad { .. } | TOp::UnwrapPwWrongPassword | TOp::UnsealKeyBad { .. } | TOp::EncryptRngFail | TOp::ParseGarbageKey { .. }
+            TOp::DecryptBad { .. }
+                | TOp::VerifyBad { .. }
+                | TOp::UnwrapPieBad { .. }
+                | TOp::UnwrapPwWrongPassword
+                | TOp::UnsealKeyBad { .. }
+                | TOp::UnsealKeyWrongRecipient
+                | TOp::UnwrapPieWrongKey
+                | TOp::DecryptWrongKey
+                | TOp::VerifyWrongKey
+                | TOp::EncryptRngFail
+                | TOp::ParseGarbageKey { .. }
         )
     }
 }
@@ -260,6 +275,41 @@ fn run_op(bk: Bk, keys: &mut Keys, shared: &Shared, st: &mut ThreadState, mail: 
                     o => o.class(),
                 }),
                 None => "skip".into(),
+            }
+        }
+        TOp::UnsealKeyWrongRecipient | TOp::UnwrapPieWrongKey | TOp::DecryptWrongKey | TOp::VerifyWrongKey => {
+            // another principal, generated here from this operation's own stream
+            let other_local = be.key_random(Kind::Local);
+            let other_secret = if f == 1 { Out::Err(crate::backend::ErrKind::Other("rsa".into())) } else { be.key_random(Kind::Secret) };
+            match op {
+                TOp::DecryptWrongKey => match (&other_local, st.last_local.clone().or(Some(shared.tok_local.clone()))) {
+                    (Out::Ok(k), Some(tk)) => res(&be.unseal(Purp::Local, k, &tk, PayloadKind::Raw, FootKind::Unit, aad, &VSpec::None, false), |_| "accepted-under-wrong-key".into()),
+                    _ => "skip".into(),
+                },
+                TOp::UnwrapPieWrongKey => match (&other_local, &st.last_pie) {
+                    (Out::Ok(k), Some(b)) => res(&be.unwrap_pie(Kind::Secret, b, k), |_| "unwrapped-under-wrong-key".into()),
+                    _ => "skip".into(),
+                },
+                TOp::VerifyWrongKey => match (&other_secret, st.last_public.clone().or(Some(shared.tok_public.clone()))) {
+                    (Out::Ok(sk), Some(tk)) => match be.public_of(sk) {
+                        Out::Ok(pk) => res(&be.unseal(Purp::Public, &pk, &tk, PayloadKind::Raw, FootKind::Unit, aad, &VSpec::None, false), |_| "accepted-under-wrong-key".into()),
+                        _ => "skip".into(),
+                    },
+                    _ => "skip".into(),
+                },
+                _ => match (&other_secret, &st.last_seal) {
+                    (Out::Ok(sk), Some(b)) => {
+                        // reinterpret the signing key pair as a PKE pair through its text (not for v1)
+                        match be.key_text(Kind::Secret, sk) {
+                            Out::Ok(t) => match be.key_parse(Kind::PkeSecret, &t) {
+                                Out::Ok(ps) => res(&be.unseal_key(b, &ps), |_| "unsealed-by-wrong-recipient".into()),
+                                _ => "skip".into(),
+                            },
+                            _ => "skip".into(),
+                        }
+                    }
+                    _ => "skip".into(),
+                },
             }
         }
         TOp::Id { kind } => res(&be.key_id(*kind, keys.get(*kind)), |(s, _)| s.clone()),
